@@ -15,6 +15,8 @@ mod check;
 mod discard;
 mod info;
 mod read;
+#[cfg(feature = "verif-hooks")]
+mod verif;
 mod write;
 use self::alloc::HostCluster;
 pub use self::info::{Qcow2DevParams, Qcow2Info};
